@@ -281,7 +281,13 @@ func runNodeOnce(p *Program, killAt int, res *Result) *nodeRun {
 			}
 			// restart: a new process, no manual step
 			init2 := &NodeInit{Dir: dir, Cfg: p.Cfg, KillAt: 0, ClockMs: clock, Mode: "replicate"}
-			n2, _, err := StartNode(init2)
+			n2, r2, err := StartNode(init2)
+			if err == nil && r2 != nil && !r2.Started {
+				// the new process came up but litestream refused to start on what
+				// the killed one left behind: a manual repair would be needed
+				err = fmt.Errorf("%s", r2.Res)
+				n2.Quit()
+			}
 			if err != nil {
 				v := e.fail("restart-failed", "after the kill (%s) litestream does not start again: %v", nr.KillDesc, err)
 				v.Facts["kill_site"] = killSite(nr.KillDesc)
